@@ -75,9 +75,23 @@ pub fn run_c05(prog: &Prog, ops: &[Op]) -> Result<RunInfo, Fail> {
     let mut info = RunInfo::default();
     let mut cur = Structure::new(p);
     let mut equated = false;
+    // programs with a member type: once the redundant `all` copies of a member relation disagree
+    // (known findings KF-C17-2 / KF-C17-3) the presence test of insert_ and the iterators read
+    // different copies; violations met from then on carry the kind of the deviating copy
+    let deviation: std::cell::Cell<Option<&'static str>> = std::cell::Cell::new(None);
+    let member_prog = prog.model.as_ref().map(|mi| !mi.member_sorts.is_empty()).unwrap_or(false);
     for (i, op) in ops.iter().enumerate() {
         info.steps += 1;
-        let ctx = |class: &str, msg: String| -> Fail { (class.to_string(), format!("op {i} {}: {msg}", op.show(p))) };
+        let ctx = |class: &str, msg: String| -> Fail {
+            let class = match deviation.get() {
+                Some(k) if k != "other" && class != "harness" => format!("{class}/{k}"),
+                _ => class.to_string(),
+            };
+            (class, format!("op {i} {}: {msg}", op.show(p)))
+        };
+        if member_prog && deviation.get().is_none() {
+            deviation.set(crate::c17::inherited_copies_deviation(prog, m.as_ref()));
+        }
         let n_before: Vec<usize> = (0..p.sorts.len()).map(|s| m.n_ids(s)).collect();
         let (res, args) = apply_op(prog, m.as_mut(), op, &|_, _| {});
         match (op, &res) {
@@ -87,6 +101,20 @@ pub fn run_c05(prog: &Prog, ops: &[Op]) -> Result<RunInfo, Fail> {
                     return Err(ctx("new-not-fresh", format!("returned {id} but {} ids existed", n_before[*sort])));
                 }
                 cur.new_el(*sort);
+            }
+            (Op::NewMember { sort, .. }, OpResult::Id(id)) => {
+                if *id as usize != n_before[*sort] {
+                    return Err(ctx("new-not-fresh", format!("returned {id} but {} ids existed", n_before[*sort])));
+                }
+                cur.new_el(*sort);
+                if let SortKind::Member { membership_rel, model_sort } = &p.sorts[*sort].kind {
+                    // new_<t>(parent) makes the element a member of parent, visibly at once
+                    let t = vec![cur.root(*model_sort, args[0]), *id];
+                    cur.tables[*membership_rel].insert(t.clone());
+                    if !equated && !m.holds(*membership_rel, &[args[0], *id]) {
+                        return Err(ctx("insert-not-visible", "the new element is not reported as a member of its parent".into()));
+                    }
+                }
             }
             (Op::Insert { rel, .. }, OpResult::Unit) => {
                 let canon = cur.canon_tuple(*rel, &args);
@@ -110,11 +138,20 @@ pub fn run_c05(prog: &Prog, ops: &[Op]) -> Result<RunInfo, Fail> {
                     }
                     if let Some(it) = m.iter_rel(*rel) {
                         let cnt = it.iter().filter(|t| **t == canon).count();
+                        let want: BTreeSet<Vec<u32>> = cur.tables[*rel].iter().cloned().collect();
+                        let got: BTreeSet<Vec<u32>> = it.iter().cloned().collect();
+                        // member relations: a tuple that is old in one way (asserted, or inherited
+                        // from an old tuple) and inherited from a new tuple in another is listed by
+                        // the new and by the old `all` copy (they are recomputed separately, the root
+                        // of KF-C17-1): the iterator then yields it twice. Its own class, so that a
+                        // wrong or missing tuple stays a different violation.
+                        let member_rel = prog.model.as_ref().map(|mi| mi.member_rels.contains(rel)).unwrap_or(false);
+                        if member_rel && cnt >= 1 && got == want && got.len() != it.len() {
+                            return Err(ctx("iter-duplicate/member-relation", format!("the iterator yields a tuple more than once: {it:?}")));
+                        }
                         if cnt != 1 {
                             return Err(ctx("insert-not-visible", format!("the iterator reports the tuple {cnt} times: {it:?}")));
                         }
-                        let want: BTreeSet<Vec<u32>> = cur.tables[*rel].iter().cloned().collect();
-                        let got: BTreeSet<Vec<u32>> = it.iter().cloned().collect();
                         if got != want || got.len() != it.len() {
                             return Err(ctx("iter-content", format!("the iterator yields {it:?}, asserted tuples are {want:?}")));
                         }
